@@ -554,6 +554,14 @@ def r6(ctx):
                         return strip(g_["recv"])
                 if n_.get("k") == "index" and e4.lit_value(n_["i"]) == "0":
                     return strip(n_["b"])
+                if n_.get("k") == "match" and len(n_["arms"]) == 2:
+                    # `match x.get(0) { Some(v) => v, None => panic!() }`: the unwrap written out
+                    g_ = strip(n_["scrut"])
+                    live_ = [a_ for a_ in n_["arms"] if e4.outcomes(c, a_["body"], lambda y_: False)]
+                    if (len(live_) == 1 and g_.get("k") == "mcall" and ((g_["name"] == "get" and e4.lit_value(g_["args"][0]) == "0") or (g_["name"] == "first" and not g_["args"]))
+                            and e4.arm_variant(live_[0])[0].endswith("Some") and e4.arm_variant(live_[0])[1]
+                            and e4.local_hid(live_[0]["body"]) == e4.arm_variant(live_[0])[1][0][1]):
+                        return strip(g_["recv"])
                 return None
 
             def quintuple_payload(m_):
@@ -730,6 +738,36 @@ def r3_kernel_helpers(ctx):
         roots = {repr(depth(e[4])[1]) for e in revs}
         ok = ds == [1, 2] and roots == {repr(kparam)} and not others and e6.root_name(val) in (None, kparam[1]) and (val == kparam or e6.root_name(val) == kparam[1])
         why = "reverse applied at nesting depths %s of %s; other mutations %d; returns %s" % (ds, sorted(roots), len(others), e6.show(val, 2))
+    if not ok and len(paths) == 1 and not [e for e in paths[0].eff if e[0] != "loop"]:
+        # value form: kernel.into_iter().map(|channel| channel.into_iter().rev().map(|row| row.into_iter().rev().collect()).collect()).collect()
+        def rebuild(t, base, depth=0):
+            """per nesting level: is the order reversed?  (None when t is not an element-by-element rebuild of base)"""
+            if t == base:
+                return []
+            cm = e6.is_call(t, "collect", 1)
+            if cm is None or depth > 4:
+                return None
+            it = cm[0]
+            mp = e6.is_call(it, "map", 2)
+            src = mp[0] if mp else it
+            rv = e6.is_call(src, "rev", 1)
+            inner = rv[0] if rv else src
+            if inner != base:
+                return None
+            if not mp:
+                return [bool(rv)]
+            if not (isinstance(mp[1], tuple) and mp[1][0] == "closure"):
+                return None
+            S_ = E.loop_summaries.get("cl%s" % mp[1][1])
+            if S_ is None or len(S_["paths"]) != 1 or S_["paths"][0].pc or S_["paths"][0].exit is not None or [e for e in S_["paths"][0].eff if e[0] != "loop"]:
+                return None
+            sub = rebuild(S_["paths"][0].val, ("elem", S_["recv"], "cl%s" % mp[1][1]), depth + 1)
+            return None if sub is None else [bool(rv)] + sub
+        val0 = paths[0].val if paths[0].exit is None else paths[0].exit[1]
+        flags = rebuild(val0, kparam)
+        if flags is not None:
+            ok = flags == [False, True, True]
+            why = "rebuilt with per-level reversal %s (channels, rows, row elements)" % flags
     ctx.check("R01.3", "rotate:rows-and-row-order-per-channel", ok, "rotate-form:" + short(why, 100), c.loc(fn),
               "for every channel: every row reversed, then the rows reversed; channels keep their order",
               "Convolution::rotate does not (only) rotate each channel by 180 degrees: %s. The input gradient of a convolution is the full "
@@ -801,6 +839,25 @@ def r3_kernel_helpers(ctx):
                and all(r is None or r == want for r, want in zip(roles_l, ["C", "F", "H", "W"]))
                and all((h in range_role) or (h in counter_of) for h in lt))
         got = "target indices %s (extents %s), source indices %s, buffer %s" % (lt, roles_l, rt, "CxFxHxW" if alloc_ok else "?")
+    if not ok2:
+        # the same fact read off the loop-nest extraction (index stores, push nests and map/collect nests alike): one store
+        # out[c][f][h][w] = kernels[f][c][h][w], every index a loop over 0..its own extent of `kernels`, out allocated C x F x H x W
+        try:
+            ex2 = mac.extract(c, fn2)
+            st2 = [s_ for s_ in ex2.stmts if isinstance(s_.target, Access) and len(s_.target.idx) == 4]
+            if len(st2) == 1 and len(ex2.stmts) == 1 and st2[0].op == "=" and not st2[0].guards and len(st2[0].reads) == 1:
+                s_ = st2[0]
+                rd = list(s_.reads.values())[0]
+                ti, ri = [str(i_) for i_ in s_.target.idx], [str(i_) for i_ in rd.idx]
+                ends = {"%s#%d" % (l_[1], l_[0]): (str(l_[2]), str(l_[3]), l_[4]) for l_ in s_.loops if isinstance(l_[0], int)}
+                nm = kp[0]
+                want_ext = ["len(%s[0])" % nm, "len(%s)" % nm, "len(%s[0][0])" % nm, "len(%s[0][0][0])" % nm]
+                ok2 = (str(s_.rhs) in s_.reads and rd.hid == kp[1] and len(set(ti)) == 4 and ri == [ti[1], ti[0], ti[2], ti[3]]
+                       and all(ends.get(v_) == ("0", w_, None) for v_, w_ in zip(ti, want_ext))
+                       and [str(z_) for z_ in ex2.allocs.get(s_.target.hid, [])] == want_ext)
+                got = "%s (loops %s, buffer %s)" % (repr(s_)[:80], [ends.get(v_) for v_ in ti], [str(z_) for z_ in ex2.allocs.get(s_.target.hid, [])])
+        except (ValueError, KeyError, IndexError):
+            pass
     ctx.check("R01.3", "rearrange:swaps-filter-and-channel-axes", ok2, "rearrange-form:" + short(got, 90), c.loc(fn2), "out[c][f][h][w] = kernels[f][c][h][w] over all f, c, h, w")
     # both are used (once each) by backward
     bf = ctx.fn("convolution::Convolution::backward")
